@@ -119,6 +119,9 @@ type Obj struct {
 	IterPos  int
 
 	ReadOnly bool // string data / constants
+
+	ChanClosed bool    // ObjChan
+	ChanQueue  []Value // ObjChan: buffered / pending values (sequential model)
 }
 
 func (o *Obj) clone(owner int) *Obj {
